@@ -87,6 +87,8 @@ WITNESS_POOL = [
     "EINVAL", "E2BIG", "EA", "E1", "FE_ALL", "INT8_MAX", "UINT8_C", "INT_MIN", "UINT_MAX", "INTa_C",
     "PRIx8", "SCNd8", "PRIX8", "LC_ALL", "SIGINT", "SIG_DFL", "TIME_UTC", "ATOMIC_X", "memory_order_relaxed",
     "reservedToken", "reservedX", "A", "ABC",
+    "NULL", "NAN", "errno", "CHAR_BIT", "FLT_MAX", "DBL_EPSILON", "LDBL_MIN", "HUGE_VAL", "FP_NAN", "MATH_ERRNO",
+    "SIZE_MAX", "PTRDIFF_MIN", "UCHAR_MAX", "LLONG_MIN", "SHRT_MAX",
 ]  # fmt: skip
 
 
